@@ -258,6 +258,13 @@ func totalInputs(fmtName string, salt int64, nNoise int) [][]byte {
 		for i := 0; i < 6; i++ {
 			out = append(out, []byte("c\t+1\t007\tn\t-0\t.\t0\t00\t0x10,017,0b11\t2\t1,+2\t-3,04\n"))
 		}
+		// full-width lines whose optional trailing columns are present but empty (block count 0), and every width from 3 to 12
+		full := []string{"c", "1", "2", "n", "0", "+", "1", "2", "0,0,0", "0", "", ""}
+		for w := 3; w <= 12; w++ {
+			out = append(out, []byte(strings.Join(full[:w], "\t")+"\n"))
+		}
+		out = append(out, []byte("c\t1\t2\tn\t0\t+\t1\t2\t0,0,0\t1\t5\t0\n"), []byte("c\t1\t2\tn\t0\t+\t1\t2\t0,0,0\t1\t5,\t0,\n"),
+			[]byte("c\t1\t2\t\t\t\t\t\t\t\t\t\n"))
 	}
 	return out
 }
